@@ -23,7 +23,7 @@ def c_measure(ctx, args):
     tags = []
     if t[1] > 0:
         tags.append('mixed')
-    if ctx.model is not None:
+    if ctx.model is not None and not ctx.search:
         flags = ctx.model.call('measure_flags', t, obs)
         coins = S.recover_coins(flags, outs, obs)
         mt, mouts, mlp, left = ctx.model.call('measure', t, obs, coins)
